@@ -11,6 +11,20 @@ PROP = dict(
                  'for /repo/kernel the abstract tree is obtained with go/parser (generated trees are known by construction)'],
         assumptions=['every non-test .go file of the tree parses (otherwise kbuild aborts the build: no table at all)',
                      'no symbolic links or unreadable entries in the tree; names within one directory are distinct (file system)'],
-        level_text='Lean theorems for every source tree (any depth, any number of files, declarations and doc lines).',
-        level_note='Trusted: Lean kernel (+ propext, Classical.choice, Quot.sound), the theorem statements, the harness.',
+        level_text='Lean theorems for every source tree (any depth, any number of files, declarations and doc comments): '
+                   'exactly_once / exactly_once_count / table_length (the table is, as a multiset, exactly one entry per directive '
+                   'comment in the doc group of a function declaration of a non-test .go file, under any per-file visiting order), '
+                   'nothing_else (membership characterisation), ignored_content (deleting test files, non-.go files, non-function docs, '
+                   'free/body comments and non-directive doc lines changes neither entries nor order), deterministic + source_order '
+                   '(the ordered table is a function of the tree alone: walk x declaration x doc-comment order; proved from the generated '
+                   'go/types fact that no loop on the path to the append ranges over a Go map), listing_order_irrelevant / '
+                   'canonical_determines (independent of readdir order), map_order_counterexample (negative witness for the repaired '
+                   'defect D12). The model is tied to kbuild/redirects.go by regenerated facts (directive, import-path prefix, loop nest '
+                   'with map/non-map kinds) and by a differential run of the real FindRedirects, 20 runs per tree, on generated trees '
+                   'written to disk and on /repo/kernel.',
+        level_note='Trusted: Lean kernel (+ propext, Classical.choice, Quot.sound), the theorem statements, the harness and its go/ast+go/types '
+                   'fact extractor. go/parser (doc-group attachment, comment text), filepath.Walk (sorted per-directory order) and the '
+                   'strings/path functions are modelled, not verified: their model is checked only by differential testing on the generated '
+                   'trees (boundary list + seeded). Reproducibility is proved for the model; for the Go code it rests on the map-range fact plus '
+                   '20 repeated runs per tree. Trees with unparsable non-test .go files (kbuild aborts), symlinks or I/O errors are outside the model.',
 )
